@@ -17,6 +17,7 @@ verus! {
 //@include sem_val.rs
 //@include std_specs.rs
 //@include types2.rs
+//@type src/value/ser.rs struct ValueSerializer
 //@include standins_fn.rs
 //@include sem_expr.rs
 
